@@ -186,9 +186,7 @@ def run_property(pid, tier, seed, replay_path=None):
         total["evaluations"] += res["evaluations"]
         nontrivial.update(bytes(x) if not isinstance(x, bytes) else x for x in res["nontrivial"])
         classes.update(res["classes"])
-        for s in res["samples"]:
-            if len(samples) < MAX_SAMPLES * 2:
-                samples.append(s)
+        samples.append(list(res["samples"]))
         for sig, (msg, case) in res["failures"].items():
             size = len(json.dumps(case, default=repr))
             if sig not in failures or size < failures[sig][0]:
@@ -217,12 +215,21 @@ def run_property(pid, tier, seed, replay_path=None):
         # property-specific post-processing (coverage floors etc.)
         mod.finalize(tier, classes, extra)
 
+    # interleave the shards' samples so every part of the check is represented
+    merged = []
+    depth = 0
+    while len(merged) < MAX_SAMPLES * 3 and any(len(s) > depth for s in samples):
+        for s in samples:
+            if len(s) > depth and len(merged) < MAX_SAMPLES * 3 and s[depth] not in merged:
+                merged.append(s[depth])
+        depth += 1
+    samples = merged
     wall = time.time() - t0
     coverage = {
         "evaluations": total["evaluations"],
         "distinct_nontrivial": len(nontrivial),
         "rule": mod.RULE,
-        "samples": samples[:MAX_SAMPLES * 2],
+        "samples": samples,
         "classes": dict(sorted(classes.items())),
         "shards": len(specs),
         "excluded_by_construction": dict(excluded),
